@@ -223,6 +223,8 @@ def check_C03(prog, steps):
         sig = 'C03:' + (tags[0] if tags else 'plain')
         if st.ep1:
             continue
+        if 'G28-inside-episode' in tags:
+            break       # the property quantifies over programs that do not home while an episode is open: the rest of this history is outside it
         # the move's tested points are all outside: positions must be re-synchronised
         if not (close(st.F1.x, st.U1.x) and close(st.F1.y, st.U1.y) and close(st.F1.z, st.U1.z)):
             fails.append(fail('after a move outside every region the printer is at %s but the file is at %s' %
